@@ -329,6 +329,205 @@ def selftest() -> None:
 
 IMPORTS = "from harness.C28 import *"
 
+G1 = "L1 step targets = step binding on the longest declared prefix path (else LocalTarget)"
+G2 = "L2 workdir = own, else first one along the wraps chain"
+G3 = "L3 constructor raises WorkflowDefinitionException iff wraps has a cycle"
+
+
+def _concrete_bindings(maxd, kinds=(True, False)):
+    """Every concrete (is_step, depth, c0, c1, c2) with depth <= maxd (unused letters False)."""
+    import itertools
+
+    out = []
+    for k in kinds:
+        for d in range(maxd + 1):
+            for cs in itertools.product((False, True), repeat=d):
+                out.append((k, d) + cs + (False,) * (MAXD - d))
+    return out
+
+
+def _show(b) -> str:
+    return ("step " if b[0] else "port ") + _pstr(_comps(b[1], b[2:]))
+
+
+def _sym_binding(i, maxd, letters=None):
+    """Params / preconditions / call expression for a solver-owned binding i; `letters` fixes the component
+    choices (then only kind and depth are symbolic and the paths form a chain)."""
+    ps = [f"k{i}: bool", f"d{i}: int"]
+    pre = [f"0 <= d{i} <= {maxd}"]
+    if letters is None:
+        names = [f"x{i}", f"y{i}", f"z{i}"][:maxd]
+        ps += [f"{v}: bool" for v in names]
+        ls = names + ["False"] * (MAXD - maxd)
+    else:
+        ls = [repr(bool(v)) for v in letters]
+    return ps, pre, f"(k{i}, d{i}, {', '.join(ls)})"
+
+
+def _near_spec(name, n, maxd, fixed=(), symq=False, qpre=None, letters=None, cond=600, what=""):
+    """n bindings, the first len(fixed) concrete (partition), the others symbolic with depth <= maxd."""
+    ps, pre, exprs = [], [], []
+    for i in range(n):
+        if i < len(fixed):
+            exprs.append(repr(tuple(fixed[i])))
+        else:
+            p, r, e = _sym_binding(i, maxd, letters)
+            ps, pre = ps + p, pre + r
+            exprs.append(e)
+    if symq:
+        ps += ["qd: int", "qx: bool", "qy: bool", "qz: bool"]
+        pre += ["0 <= qd <= 3"] + list(qpre or [])
+        q = "(qd, qx, qy, qz)"
+        qtxt = "queried step path symbolic (0..3 components" + (", partition: " + " and ".join(qpre) if qpre else "") + ")"
+    else:
+        q = str(MAXD)
+        qtxt = "every step path with 0..3 components (15) is queried on each explored configuration"
+    if letters is None:
+        ptxt = f"paths of 0..{maxd} components over {LETTERS}"
+    else:
+        ptxt = "paths on the chain " + ", ".join(_pstr(_comps(d, letters)) for d in range(maxd + 1))
+    bound = (
+        f"{n} binding(s), kind (step/port) symbolic, {ptxt}"
+        + ("; partition: " + "; ".join(f"binding {i} = {_show(b)}" for i, b in enumerate(fixed)) if fixed else "")
+        + "; "
+        + qtxt
+        + (" " + what if what else "")
+    )
+    nsym = n - len(fixed)
+    return Spec(
+        name=name,
+        group=G1,
+        source=mk_source(IMPORTS, ", ".join(ps), pre, f"prop_nearest([{', '.join(exprs)}], {q})"),
+        cond=cond,
+        path=30,
+        bound=bound,
+        symbolic=f"{nsym} x (kind bool, depth int, component choices bool)" + (" + query (depth int, 3 component bools)" if symq else ""),
+        targets=T_CFG + T_BIND,
+    )
+
+
+def _wraps_spec(prop, name, group, nd, fixed, extra_params, extra_pre, call_tail, cond, bound, symbolic, targets):
+    """nd deployments; wraps[i] concrete for i < len(fixed) (partition) else symbolic in -1..nd-1."""
+    ps, pre, ws = [], [], []
+    for i in range(nd):
+        if i < len(fixed):
+            ws.append(str(fixed[i]))
+        else:
+            ps.append(f"w{i}: int")
+            pre.append(f"-1 <= w{i} <= {nd - 1}")
+            ws.append(f"w{i}")
+    ps += extra_params
+    pre += extra_pre
+    return Spec(
+        name=name,
+        group=group,
+        source=mk_source(IMPORTS, ", ".join(ps), pre, f"{prop}([{', '.join(ws)}], {call_tail})"),
+        cond=cond,
+        path=30,
+        bound=bound + ("; partition: " + ", ".join(f"d{i} wraps " + (f"d{w}" if w >= 0 else "nothing") for i, w in enumerate(fixed)) if fixed else ""),
+        symbolic=symbolic,
+        targets=targets,
+    )
+
+
+QPARTS = (["qd <= 1"], ["qd == 2"], ["qd == 3", "not qx"], ["qd == 3", "qx"])
+
+
+def _u5_specs(n, cond):
+    """n bindings over the five paths /, /a, /ab, /a/a, /a/ab (two components only below /a), all queries."""
+    out = []
+    for j, b in enumerate(b for b in _concrete_bindings(2) if b[1] <= 1 or not b[2]):
+        s = _near_spec(f"near_n{n}_u5_allq_p{j}", n, 2, fixed=(b,), cond=cond)
+        s.bound = s.bound.replace(f"paths of 0..2 components over {LETTERS}", "paths among /, /a, /ab, /a/a, /a/ab")
+        out.append(_restrict(s, [f"d{i} <= 1 or not x{i}" for i in range(1, n)], text=""))
+    return out
+
 
 def specs(tier: str):
-    return []
+    quick = tier == "quick"
+    out = []
+    # ---------------- L1
+    out.append(_near_spec("near_n1_symq", 1, 3, symq=True, cond=200))
+    if quick:
+        # n=2, symbolic query, binding paths up to 2 components (partition on the query)
+        for qi, qp in enumerate(QPARTS):
+            out.append(_near_spec(f"near_n2_d2_symq_q{qi}", 2, 2, symq=True, qpre=qp, cond=400))
+        # n=3 over the paths /, /a, /ab, /a/a, /a/ab, all queries (partition: binding 0 concrete)
+        out += _u5_specs(3, 400)
+    else:
+        for qi, qp in enumerate(QPARTS):
+            for k in (True, False):
+                sp = _near_spec(f"near_n2_d3_symq_q{qi}{'s' if k else 'p'}", 2, 3, symq=True, qpre=qp, cond=900)
+                out.append(_restrict(sp, ["k0" if k else "not k0"]))
+        for j, b in enumerate(_concrete_bindings(2)):
+            for k in (True, False):
+                sp = _near_spec(f"near_n3_d2_symq_p{j:02d}{'s' if k else 'p'}", 3, 2, fixed=(b,), symq=True, cond=900)
+                out.append(_restrict(sp, ["k1" if k else "not k1"]))
+        for j, b in enumerate(_concrete_bindings(3)):
+            out.append(_near_spec(f"near_n3_d3_allq_p{j:02d}", 3, 3, fixed=(b,), cond=1200))
+        # n=4 over the paths /, /a, /ab, /a/a, /a/ab, all queries (partition: binding 0 concrete)
+        out += _u5_specs(4, 1800)
+        chain = (False, True, False)
+        for j, (k, d) in enumerate((k, d) for k in (True, False) for d in range(3)):
+            b = (k, d) + chain
+            out.append(_near_spec(f"near_n5_chain_allq_p{j}", 5, 2, fixed=(b,), letters=chain, cond=1800))
+    # ---------------- L2
+    for nd in (1, 2, 3) if quick else (1, 2, 3, 4):
+        for t in range(nd):
+            parts = [()] if nd < 4 else [(w,) for w in range(-1, nd)]
+            for fx in parts:
+                wd = [f"h{i}" for i in range(nd)]
+                out.append(
+                    _wraps_spec(
+                        "prop_workdir",
+                        f"workdir_n{nd}_t{t}" + ("" if not fx else f"_w{fx[0] + 1}"),
+                        G2,
+                        nd,
+                        fx,
+                        [f"{v}: bool" for v in wd] + ["twd: bool", "flip: bool", "below: bool"],
+                        [],
+                        f"[{', '.join(wd)}], {t}, twd, flip, below",
+                        300 if nd < 4 else 900,
+                        f"{nd} deployment(s), each wrapping any deployment (itself included) or none (files with a cycle are covered by L3 and skipped here), "
+                        f"workdir present or not on each; a step binding on /a whose first target is d{t} (partition) with or without its own workdir; "
+                        "both wraps notations; step queried on its own path or one level below",
+                        f"{nd - len(fx)} wraps indexes (int), {nd} + 1 workdir presence flags, notation flag, query flag (bool)",
+                        T_CFG + T_BIND,
+                    )
+                )
+    # ---------------- L3
+    for nd in (1, 2, 3, 4) if quick else (1, 2, 3, 4, 5):
+        if nd <= 3:
+            parts = [()]
+        elif nd == 4:
+            parts = [(w,) for w in range(-1, nd)]
+        else:
+            parts = [(w0, w1) for w0 in range(-1, nd) for w1 in range(-1, nd)]
+        for fx in parts:
+            out.append(
+                _wraps_spec(
+                    "prop_cycle",
+                    f"cycle_n{nd}" + "".join(f"_{w + 1}" for w in fx),
+                    G3,
+                    nd,
+                    fx,
+                    ["flip: bool", "wd0: bool", "bound: bool"],
+                    [],
+                    "flip, wd0, bound",
+                    300 if nd < 5 else 900,
+                    f"{nd} deployment(s), each wrapping any deployment (itself included) or none: every functional wraps graph incl. self references, "
+                    "cycles of every length, chains leading into a cycle; both wraps notations; d0 with/without workdir; with/without a root step binding",
+                    f"{nd - len(fx)} wraps indexes (int), 3 flags (bool)",
+                    T_CFG,
+                )
+            )
+    return out
+
+
+def _restrict(spec, pre, text=None):
+    """Add preconditions (a restriction / partition of the same obligation) to both generated functions."""
+    lines = "".join(f"    pre: {p}\n" for p in pre)
+    assert '    """\n    pre:' in spec.source
+    spec.source = spec.source.replace('    """\n    pre:', '    """\n' + lines + "    pre:")
+    spec.bound += ("; partition: " + " and ".join(pre)) if text is None else text
+    return spec
